@@ -281,6 +281,9 @@ class Executor(StmtMixin, LoopMixin, DriverMixin):
                 for s2, v in self.cases(s, [(c, k, p)], sink, "L%d" % node.lineno):
                     res += self.attr_of(s2, v, attr, sink, node)
             return res
+        if isinstance(obj.t, ty.RefT) and attr == "__class__":
+            # the class of an object, as its class id (only ever compared for equality)
+            return [(s, SV(ty.Int, ty.typeof(obj.e)))]
         if isinstance(obj.t, ty.RefT):
             key, _ = self.reg.field_key(obj.t.cls, attr)
             if key is not None:
@@ -369,10 +372,39 @@ class Executor(StmtMixin, LoopMixin, DriverMixin):
     def x_Compare(self, node, st, sink):
         out = []
         for s, vals in self.ev_list([node.left] + node.comparators, st, sink):
-            es = []
+            if len(node.ops) == 1 and isinstance(node.ops[0], (ast.Eq, ast.NotEq)) and isinstance(vals[0].t, ty.RefT):
+                # a class with its own __eq__ under contract: `a == b` is a call of it (otherwise == on objects is identity)
+                c = self.reg.find_method(vals[0].t.cls, "__eq__")
+                if c is not None:
+                    for s2, r in self.call_contract(c, [vals[0], vals[1]], {}, s, sink, node):
+                        b = ops.truthy(r)
+                        out.append((s2, SV(ty.Bool, z3.Not(b) if isinstance(node.ops[0], ast.NotEq) else b)))
+                    continue
+            # None as the container of `in`, or as an operand of an ordering comparison, raises TypeError
+            need = []
             for k, op in enumerate(node.ops):
-                es.append(ops.compare(type(op).__name__, vals[k], vals[k + 1]))
-            out.append((s, SV(ty.Bool, es[0] if len(es) == 1 else z3.And(*es))))
+                if isinstance(op, (ast.In, ast.NotIn)) and isinstance(vals[k + 1].t, ty.Opt):
+                    need.append(k + 1)
+                if isinstance(op, (ast.Lt, ast.LtE, ast.Gt, ast.GtE)):
+                    need += [j for j in (k, k + 1) if isinstance(vals[j].t, ty.Opt)]
+            states = [(s, vals)]
+            for j in need:
+                nxt = []
+                for s1, vs in states:
+                    if not isinstance(vs[j].t, ty.Opt):
+                        nxt.append((s1, vs))
+                        continue
+                    isn = ty.opt_is_none(vs[j])
+                    for s2, v in self.cases(s1, [(z3.Not(isn), "val", ty.opt_val(vs[j])), (isn, "exc", "TypeError")], sink, "L%d" % node.lineno):
+                        vs2 = list(vs)
+                        vs2[j] = v
+                        nxt.append((s2, vs2))
+                states = nxt
+            for s1, vs in states:
+                es = []
+                for k, op in enumerate(node.ops):
+                    es.append(ops.compare(type(op).__name__, vs[k], vs[k + 1]))
+                out.append((s1, SV(ty.Bool, es[0] if len(es) == 1 else z3.And(*es))))
         return out
 
     def x_IfExp(self, node, st, sink):
